@@ -801,7 +801,7 @@ fn build(p: &WP, sym: bool) -> Result<(gw::Dwarf, gw::FrameTable, usize), gw::Er
         for (d, &e) in ents.iter().enumerate().skip(1) {
             let nattr = 1 + rng.below(5);
             for _ in 0..nattr {
-                match rng.below(14) {
+                match rng.below(17) {
                     0 | 1 => {
                         unit.get_mut(e).set(gimli::DW_AT_low_pc, gw::AttributeValue::Address(mkaddr(p, sym, d, (rng.below(64) * 4) as i64 - 8)));
                         unit.get_mut(e).set(gimli::DW_AT_high_pc, gw::AttributeValue::Udata(1 + rng.below(100)));
@@ -826,7 +826,9 @@ fn build(p: &WP, sym: bool) -> Result<(gw::Dwarf, gw::FrameTable, usize), gw::Er
                     }
                     5 => {
                         let ex = mk_expr(&mut rng);
-                        unit.get_mut(e).set(gimli::DW_AT_frame_base, gw::AttributeValue::Exprloc(ex));
+                        if unit.get(e).get(gimli::DW_AT_frame_base).is_none() {
+                            unit.get_mut(e).set(gimli::DW_AT_frame_base, gw::AttributeValue::Exprloc(ex));
+                        }
                     }
                     6 => {
                         if d > 1 {
@@ -870,6 +872,34 @@ fn build(p: &WP, sym: bool) -> Result<(gw::Dwarf, gw::FrameTable, usize), gw::Er
                     }
                     12 => {
                         unit.get_mut(e).set(gimli::DW_AT_decl_line, gw::AttributeValue::Udata(rng.below(5000)));
+                    }
+                    13 | 14 => {
+                        // every attribute name whose classes include loclistptr: in DWARF 2/3 the writer emits
+                        // DW_FORM_data4/data8 for it, which the reader must still treat as a section offset
+                        let names = [
+                            gimli::DW_AT_location,
+                            gimli::DW_AT_string_length,
+                            gimli::DW_AT_return_addr,
+                            gimli::DW_AT_frame_base,
+                            gimli::DW_AT_segment,
+                            gimli::DW_AT_static_link,
+                            gimli::DW_AT_use_location,
+                            gimli::DW_AT_vtable_elem_location,
+                            gimli::DW_AT_data_member_location,
+                        ];
+                        let nm = names[rng.below(names.len() as u64) as usize];
+                        if p.flags & F_LOCS != 0 && unit.get(e).get(nm).is_none() {
+                            let ll = mk_locs(&mut rng);
+                            let id = unit.locations.add(ll);
+                            unit.get_mut(e).set(nm, gw::AttributeValue::LocationListRef(id));
+                        }
+                    }
+                    15 => {
+                        if p.flags & F_RANGES != 0 && unit.get(e).get(gimli::DW_AT_start_scope).is_none() {
+                            let rl = mk_ranges(&mut rng);
+                            let id = unit.ranges.add(rl);
+                            unit.get_mut(e).set(gimli::DW_AT_start_scope, gw::AttributeValue::RangeListRef(id));
+                        }
                     }
                     _ => {
                         unit.get_mut(e).set(gimli::DW_AT_external, gw::AttributeValue::Flag(true));
@@ -1043,7 +1073,7 @@ fn dump_dwarf<R: Reader<Offset = usize>>(d: &gimli::Dwarf<R>, out: &mut String, 
                                 let _ = write!(out, " ranges!{}", errname(&e));
                             }
                         }
-                        if matches!(a.name(), gimli::DW_AT_location | gimli::DW_AT_frame_base | gimli::DW_AT_data_member_location | gimli::DW_AT_call_value) {
+                        if matches!(a.name(), gimli::DW_AT_location | gimli::DW_AT_frame_base | gimli::DW_AT_data_member_location | gimli::DW_AT_call_value | gimli::DW_AT_string_length | gimli::DW_AT_return_addr | gimli::DW_AT_segment | gimli::DW_AT_static_link | gimli::DW_AT_use_location | gimli::DW_AT_vtable_elem_location) {
                             match d.attr_locations(&unit, v.clone()) {
                                 Ok(Some(mut it)) => {
                                     let _ = write!(out, " locs=");
@@ -1611,6 +1641,75 @@ fn corpus(t: &[&str]) -> String {
     "ok".to_string()
 }
 
+
+// ---------------------------------------------------------------- c18.secoff
+
+fn secoff(t: &[&str]) -> String {
+    let name: u64 = u(t[5]);
+    let form: u64 = u(t[6]);
+    let info = hex(t[7]);
+    let mut i = 8;
+    let rels = parse_rels(t, &mut i);
+    // abbrev 1: DW_TAG_compile_unit, no children, one attribute (name, form)
+    let mut abbrev: Vec<u8> = vec![1, 0x11, 0];
+    let mut uleb = |mut v: u64, out: &mut Vec<u8>| loop {
+        let b = (v & 0x7f) as u8;
+        v >>= 7;
+        if v == 0 {
+            out.push(b);
+            break;
+        }
+        out.push(b | 0x80);
+    };
+    uleb(name, &mut abbrev);
+    uleb(form, &mut abbrev);
+    abbrev.extend_from_slice(&[0, 0, 0]);
+    let e = endian(t[1]);
+    fn one<R: Reader<Offset = usize>>(info: R, abbrev: R) -> String {
+        let di = gimli::DebugInfo::from(info);
+        let da = gimli::DebugAbbrev::from(abbrev);
+        let h = match di.units().next() {
+            Ok(Some(h)) => h,
+            Ok(None) => return "none".into(),
+            Err(e) => return err(&e),
+        };
+        let ab = match h.abbreviations(&da) {
+            Ok(a) => a,
+            Err(e) => return err(&e),
+        };
+        let mut cur = h.entries(&ab);
+        match cur.next_dfs() {
+            Ok(Some(entry)) => match entry.attrs().first() {
+                Some(a) => match a.raw_value() {
+                    gimli::AttributeValue::Data4(v) => format!("ok 0,{}", v),
+                    gimli::AttributeValue::Data8(v) => format!("ok 0,{}", v),
+                    gimli::AttributeValue::SecOffset(v) => format!("ok 1,{}", v),
+                    other => format!("other {:?}", other).replace(' ', "_"),
+                },
+                None => "noattr".into(),
+            },
+            Ok(None) => "nodie".into(),
+            Err(e) => err(&e),
+        }
+    }
+    let rel = MapRel::new(&rels);
+    let norel = MapRel::new(&[]);
+    let rr = one(
+        RelocateReader::new(EndianSlice::new(&info, e), rel.clone()),
+        RelocateReader::new(EndianSlice::new(&abbrev, e), norel),
+    );
+    let applied = apply_read_relocs(&info, &rels, t[1] == "1");
+    let pr = one(EndianSlice::new(&applied, e), EndianSlice::new(&abbrev, e));
+    if t[2] == "1" && rr != pr {
+        return format!("relocread-mismatch reloc=[{}] applied=[{}]", rr, pr);
+    }
+    // the unit header's debug_abbrev_offset is relocatable too; the model starts at the attribute's field
+    let fw = if form == 6 { 4 } else if form == 7 { 8 } else { us(t[4]) };
+    let foff = info.len().saturating_sub(fw);
+    rel.log.borrow_mut().retain(|x| x.0 >= foff);
+    format!("r {} p {} s {}", rr, pr, rel.sites())
+}
+
 pub fn run(t: &[&str]) -> String {
     match t[0] {
         "c18.wops" => wops(t),
@@ -1619,6 +1718,7 @@ pub fn run(t: &[&str]) -> String {
         "c18.ranges" => ranges(t),
         "c18.write" => write_stream(t),
         "c18.corpus" => corpus(t),
+        "c18.secoff" => secoff(t),
         _ => format!("unknown-stream {}", t[0]),
     }
 }
